@@ -1,1 +1,11 @@
 // harnesses for this module (included by the isomer_erbium_verif hook)
+// Constructor used by router/acl harnesses: a CacheHandler that is never queried (no task spawned).
+#[cfg(kani)]
+impl super::CacheHandler {
+    pub fn verif_inert() -> Self {
+        super::CacheHandler {
+            next: super::outquery::OutQuery::new(),
+            cache: std::sync::Arc::new(tokio::sync::RwLock::new(super::Cache::new())),
+        }
+    }
+}
